@@ -29,7 +29,8 @@ RULE = ("prime selection: every size 25..1200 (plus 12 and 24) x several "
         "2-D and both 3-D forms.  Signature = (kind, size class, root class, "
         "shift, antennas, normalised, users); non-trivial = size > 24 or a "
         "multi-tap channel.  "
-        "Cover codes are Walsh rows of length 2 and 4. ")
+        "Cover codes are Walsh rows of length 2 and 4. "
+        "The normalisation flag reaches the sequences as a literal, a numpy bool or 0/1. ")
 ASSUMPTIONS = ["phase of the reference ZC sequence reduced exactly with integer "
                "arithmetic modulo 2 Nzc; library phases are allowed 8 eps pi u N",
                "multi-user estimator scenarios only for lengths that are a "
@@ -298,6 +299,10 @@ def case_estimator(ctx, rng, idx):
     if size > 24 and root.Nzc != Nzc:
         ctx.tally("estimator-on-wrong-Nzc")      # still a unit-amplitude sequence
     normalize = bool(rng.integers(0, 2))
+    # the flag as the caller happens to hold it (a literal, the result of a
+    # numpy comparison, 0/1): whatever the sequence does with it, the estimator
+    # built on that sequence must stay exact
+    normalize = [normalize, normalize, np.bool_(normalize), int(normalize)][int(rng.integers(0, 4))]
     Nr = int(rng.integers(1, 5))
     n_cs0 = int(rng.integers(0, nshift))
     window = size // nshift
@@ -370,7 +375,8 @@ def case_estimator(ctx, rng, idx):
         want = H0[0]
     else:
         Yin, want = Y, H0
-    tag = {"variant": variant, "size": size, "u": u, "Nr": Nr, "normalize": normalize,
+    tag = {"variant": variant, "size": size, "u": u, "Nr": Nr,
+           "normalize": "%s(%s)" % (type(normalize).__name__, normalize),
            "taps": L, "num_taps_to_keep": keep, "users": users, "input_ndim": Yin.ndim}
     if variant == "dmrs-occ":
         est = CE.CazacBasedWithOCCChannelEstimator(ue0)
@@ -437,7 +443,8 @@ def case_estimator(ctx, rng, idx):
                        (64 * EPS * math.pi * u * size * fro(H3) * 8 if size > 24 else 0),
                        variant + ":reused-estimator-new-channel",
                        {**tag, "taps_second_channel": L3, "num_taps_to_keep": keep3})
-    ctx.sig("est", variant, size % 5, Nr, normalize, len(users), Yin.ndim)
+    ctx.sig("est", variant, size % 5, Nr, bool(normalize), type(normalize).__name__, len(users),
+            Yin.ndim)
     ctx.tally("estimator-users=%d" % len(users))
     ctx.sample(variant, tag)
 
